@@ -24,6 +24,7 @@ import (
 	"time"
 
 	"github.com/intuitivelabs/sipsp"
+	"github.com/intuitivelabs/slog"
 
 	"verif/gen"
 	"verif/sim"
@@ -41,14 +42,14 @@ type budget struct {
 // speed); the wall-clock cap only bites on a much slower machine.
 var budgets = map[string]map[string]budget{
 	"quick": {
-		"C01": {60000, 1, 100}, "C02": {120000, 1, 100}, "C03": {12000, 1, 100}, "C04": {120000, 1, 100},
-		"C05": {80000, 1, 100}, "C06": {60000, 1, 100}, "C10": {150000, 1, 100}, "C11": {60000, 1, 100},
-		"C12": {30000, 1, 100}, "C13": {80000, 1, 100}, "C19": {60000, 1, 100},
+		"C01": {250000, 1, 150}, "C02": {600000, 1, 150}, "C03": {100000, 1, 150}, "C04": {600000, 1, 150},
+		"C05": {300000, 1, 150}, "C06": {200000, 1, 150}, "C10": {600000, 1, 150}, "C11": {400000, 1, 150},
+		"C12": {250000, 1, 150}, "C13": {500000, 1, 150}, "C19": {150000, 1, 150},
 	},
 	"thorough": {
-		"C01": {1500000, 4, 1500}, "C02": {3000000, 4, 1500}, "C03": {300000, 4, 1500}, "C04": {2500000, 4, 1500},
-		"C05": {2000000, 4, 1500}, "C06": {1500000, 4, 1500}, "C10": {3000000, 4, 1500}, "C11": {1500000, 4, 1500},
-		"C12": {600000, 4, 1500}, "C13": {2000000, 4, 1500}, "C19": {1500000, 4, 1500},
+		"C01": {2500000, 4, 1500}, "C02": {6000000, 4, 1500}, "C03": {900000, 4, 1500}, "C04": {6000000, 4, 1500},
+		"C05": {3000000, 4, 1500}, "C06": {2000000, 4, 1500}, "C10": {6000000, 4, 1500}, "C11": {4000000, 4, 1500},
+		"C12": {2500000, 4, 1500}, "C13": {5000000, 4, 1500}, "C19": {1500000, 4, 1500},
 	},
 }
 
@@ -68,6 +69,8 @@ func main() {
 	dump := flag.String("dump", "", "print the scenario of seed:index and exit")
 	eventlog := flag.Bool("eventlog", false, "print a hash of every run's outcome (determinism self-test)")
 	cpuprof := flag.String("cpuprofile", "", "write a CPU profile")
+	tasksOnly := flag.Bool("tasks-only", false, "C04: multi-task worlds only (isolation passes)")
+	embed := flag.String("embed", "", "comma separated evidence files of sub-passes to embed under coverage.sub_passes")
 	flag.Parse()
 	debug.SetGCPercent(400)
 	if *cpuprof != "" {
@@ -77,6 +80,11 @@ func main() {
 	}
 
 	checkConstants()
+	// the library logs BUG()/DBG() lines to stderr (e.g. for out-of-range header types handed to
+	// GetHdrSigId); mute its exported logger, the messages are not observations of any property
+	slog.SetOutput(&sipsp.Log, slog.LDisabledOut)
+	sim.C04TasksOnly = *tasksOnly
+	embedFiles = *embed
 
 	switch *mode {
 	case "calls":
@@ -151,6 +159,11 @@ func main() {
 		return
 	}
 
+	if sim.TaskMode == sim.ModeYield {
+		// the yield hook is one package-level variable of the instrumented copy:
+		// one world at a time per process (the script runs several processes)
+		*workers = 1
+	}
 	res := sim.Run(sim.RunCfg{Prop: *prop, Tier: *tier, Seeds: seeds, RunsPer: b.runs, MaxSeconds: b.secs, Workers: *workers, Known: known})
 
 	if res.Stalled != "" {
@@ -204,6 +217,8 @@ func main() {
 	fmt.Printf("done: property=%s runs=%d calls=%d wall=%.1fs violations=%d known_finding_hits=%d\n", *prop, res.Runs, res.Stats.Calls, res.Wall, violations, sum(res.KnownHits))
 	os.Exit(exit)
 }
+
+var embedFiles string
 
 func pick(a, b int) int {
 	if a > 0 {
@@ -362,6 +377,24 @@ func writeEvidence(prop, tier string, seed uint64, seeds []uint64, res *sim.RunR
 			"receiver loop, object pool, buffer management":                            "harness model of user code following the documented call protocol",
 			"allocator, OS": "real, irrelevant (parse paths do no I/O)",
 		},
+	}
+	if embedFiles != "" {
+		subs := map[string]interface{}{}
+		for _, f := range strings.Split(embedFiles, ",") {
+			b, err := ioutil.ReadFile(f)
+			if err != nil {
+				subs[f] = "missing: " + err.Error()
+				continue
+			}
+			var x map[string]interface{}
+			if json.Unmarshal(b, &x) == nil {
+				c, _ := x["coverage"].(map[string]interface{})
+				delete(c, "components")
+				delete(c, "rule")
+				subs[filepath.Base(f)] = map[string]interface{}{"wall_s": x["wall_s"], "violations": x["violations"], "coverage": c}
+			}
+		}
+		cov["sub_passes"] = subs
 	}
 	ev := map[string]interface{}{
 		"property_id": prop,
